@@ -131,6 +131,24 @@ def probe(res, rng, n):
                                                                     stored_scale_before_call=None if d.scale is None else float(d.scale)),
                                            observed=got, expected=want))
             d.scale = got       # what _estimate_model_statistics does after every fit
+    # tiny positive targets (rates y / exposure with a huge exposure, ~1e-9 and below) are not zeros: the unit deviance keeps its y log(y / mu) term
+    for fam in ('PoissonDist', 'BinomialDist'):
+        for rep in range(8):
+            L = float(rng.choice([1, 4])) if fam == 'BinomialDist' else 1.0
+            d = mk(fam, 1.0, L)
+            yt = 10 ** rng.uniform(-14, -8)
+            mut = yt * 10 ** rng.uniform(-1.5, 1.5)
+            wt = f32(10 ** rng.uniform(6, 10))
+            with np.errstate(all='ignore'):
+                got = float(d.deviance(y=np.array([yt]), mu=np.array([mut]), weights=np.array([wt]), scaled=False)[0])
+                zero = float(d.deviance(y=np.array([yt]), mu=np.array([yt]), weights=np.array([wt]), scaled=False)[0])
+            want = 2 * wt * (yt * math.log(yt / mut) - (yt - mut)) if fam == 'PoissonDist' else \
+                2 * wt * (yt * math.log(yt / mut) + (L - yt) * math.log((L - yt) / (L - mut)))
+            res.case(('tiny-targets', fam, rep))
+            if not (math.isclose(got, want, rel_tol=1e-6, abs_tol=1e-12 * wt * (yt + mut)) and abs(zero) <= 1e-12 * wt * yt and got >= -1e-12 * wt * (yt + mut)):
+                res.violations.append(dict(what='unit deviance of a tiny positive target is not 2 w [y log(y/mu) - (y - mu)] (binomial: + (L-y) log((L-y)/(L-mu))): '
+                                                'the target was treated as an exact zero, or the deviance is negative / non-zero at y = mu', finding=None,
+                                           input=dict(family=fam, levels=L, y=yt, mu=mut, weight=wt), observed=dict(deviance=got, deviance_at_y_eq_mu=zero), expected=want))
     # integer-typed targets (counts straight from np.random.poisson / a label array) must give the deviance of the same numbers as floats
     for fam in FAMS:
         for rep in range(6):
